@@ -16,17 +16,19 @@ def _validate(args):
                    timeout=6000, xmx="3g", xss="1g")
 
 
-def generate(ctx, plan, deep_every):
-    """plan: list of (isa name, number of cases). returns list of traces"""
+def generate(ctx, plan, deep_every, wants=None):
+    """plan: list of (isa name, number of cases). returns list of traces.
+    wants: {isa: [[mnemonic, ...] per case]} (sweep mode: aim every case at given mnemonics)"""
     jobs = []
     tid = 1
     for name, n in plan:
         # split an ISA's cases in chunks so that all cores are busy
-        chunk = 25
+        chunk = 12
         done = 0
+        w = (wants or {}).get(name)
         while done < n:
             c = min(chunk, n - done)
-            jobs.append((name, ctx.seed * 1000003 + tid, tid, c, deep_every, CONFIGS, None))
+            jobs.append((name, ctx.seed * 1000003 + tid, tid, c, deep_every, CONFIGS, w[done:done + c] if w else None))
             tid += c
             done += c
     traces = []
@@ -38,14 +40,14 @@ def generate(ctx, plan, deep_every):
     return traces
 
 
-def validate(traces, tag="c02T"):
+def validate(traces, tag="c02T", maxshards=None):
     """returns {trace id: verdict record} and the TLC results"""
     for i, t in enumerate(traces):
         t["t"] = i + 1
     good = [t for t in traces if "steps" in t]
     wd = tlc.workdir(tag)
     order = sorted(range(len(good)), key=lambda i: -len(json.dumps(good[i])))
-    nsh = max(1, min(tlc.NCPU, len(good) // 8 or 1))
+    nsh = max(1, min(maxshards or tlc.NCPU, len(good) // 8 or 1))
     shards = [[] for _ in range(nsh)]
     for k, i in enumerate(order):
         shards[k % nsh].append(good[i])
